@@ -58,6 +58,9 @@ def _case(draw, fire=False):
         case["air_c"] = draw(st.floats(-40.0, 50.0))
         case["powder_t"] = _temp(draw, draw(st.floats(-50.0, 60.0)), allow_zero=True) if draw(st.booleans()) else None
         case["alt_ft"] = draw(st.floats(0.0, 5000.0))
+        # how the atmosphere is given: all values explicit; altitude only (standard conditions there, the air - and so the
+        # powder - is colder than at sea level); the ICAO constructor; no atmosphere at all (standard sea level)
+        case["atmo_form"] = draw(st.sampled_from(["explicit", "explicit", "altitude-only", "icao", "none"]))
     return case
 
 
@@ -156,11 +159,31 @@ def check_fire(case):
     if case["powder_t"] is not None:
         kw["powder_t"] = _q(case["powder_t"])
         r.label("powder_t-given")
-    atmo = pb.Atmo(altitude=pb.Distance.Foot(case["alt_ft"]), pressure=pb.Pressure.hPa(1000.0),
-                   temperature=pb.Temperature.Celsius(case["air_c"]), humidity=0.0, **kw)
-    shot = pb.Shot(pb.Weapon(pb.Distance.Inch(2)), ammo, atmo=atmo)
-    pt_c = (_q(case["powder_t"]) >> pb.Temperature.Celsius) if case["powder_t"] is not None else \
-        (pb.Temperature.Celsius(case["air_c"]) >> pb.Temperature.Celsius)
+    form = case.get("atmo_form", "explicit")
+    r.label("atmosphere:" + form)
+    air_c = case["air_c"]
+    slack_c = 0.0
+    if form == "explicit":
+        atmo = pb.Atmo(altitude=pb.Distance.Foot(case["alt_ft"]), pressure=pb.Pressure.hPa(1000.0),
+                       temperature=pb.Temperature.Celsius(case["air_c"]), humidity=0.0, **kw)
+    else:
+        # standard air temperature at the altitude: 15 C less 6.5 K/km (C08's subject; 2e-3 C for rounded lapse constants)
+        alt = 0.0 if form == "none" else case["alt_ft"]
+        air_c = 15.0 - 0.0065 * alt * 0.3048
+        slack_c = 2e-3
+        if form == "altitude-only":
+            atmo = pb.Atmo(altitude=pb.Distance.Foot(alt), **kw)
+        elif form == "icao":
+            atmo = pb.Atmo.icao(pb.Distance.Foot(alt))
+            kw = {}
+        else:
+            atmo = None
+            kw = {}
+    shot = pb.Shot(pb.Weapon(pb.Distance.Inch(2)), ammo, atmo=atmo) if atmo is not None else pb.Shot(pb.Weapon(pb.Distance.Inch(2)), ammo)
+    given_pt = case["powder_t"] is not None and bool(kw)
+    pt_c = (_q(case["powder_t"]) >> pb.Temperature.Celsius) if given_pt else air_c
+    if given_pt:
+        slack_c = 0.0
     exp = _expected(ammo, v0, t0c, m, pt_c) if enabled else v0
     if exp < 60.0:
         # the linear law may extrapolate to speeds below the solver's minimum-velocity limit: nothing to fire
@@ -168,9 +191,9 @@ def check_fire(case):
         return r
     hit = pb.Calculator().fire(shot, pb.Distance.Foot(30.0), pb.Distance.Foot(10.0))
     got = hit.trajectory[0].velocity >> pb.Velocity.MPS
-    if not abs(got - exp) <= REL * max(abs(exp), 1.0):
-        which = "given powder temperature" if case["powder_t"] is not None else "air temperature"
-        r.bad("C17:launch-velocity:" + ("powder_t" if case["powder_t"] is not None else "air"),
+    if not abs(got - exp) <= REL * max(abs(exp), 1.0) + (abs(m * v0) * slack_c / 15.0 if enabled else 0.0):
+        which = "given powder temperature" if given_pt else "air temperature"
+        r.bad("C17:launch-velocity:" + ("powder_t" if given_pt else "air"),
               f"first row speed {got!r} m/s, expected {exp!r} m/s for the {which} {pt_c!r} C "
               f"(baseline {v0!r} @ {t0c!r} C, modifier {m!r}, enabled={enabled})")
     r.nontrivial = enabled and m != 0 and abs(pt_c - t0c) > 0.5
